@@ -1212,6 +1212,13 @@ func (v *variantCallPacket) UnmarshalBinary(data []byte) (err error) {
 	}
 	p = p[v.TransactionID.Size():]
 
+	// No command object in the packet, drop the one preset by the constructor,
+	// so that the Size() is the bytes consumed.
+	if len(p) == 0 {
+		v.CommandObject = nil
+		return
+	}
+
 	if len(p) > 0 {
 		if v.CommandObject, err = amf0.Discovery(p); err != nil {
 			return oe.WithMessage(err, "discovery command object")
